@@ -9,6 +9,10 @@
         [rejected hit: cache.pop(key(i), None)]   -- atomic (translator cache only)
         v = compute(i)                   -- thread-local
         [cacheable:] cache[skey(i)] = v  -- atomic
+  `early = true` is the variant in which the miss branch publishes its object BEFORE it has finished building it
+  (`cache[skey(i)] = unfinished(i)`, then the object is completed in place -- visible to every thread that looked it up in
+  between); `early = false` is a miss branch whose store is the last thing it does to the object.  Which of the two the
+  code is, is read off the source on every run (harness/gen_c22.py -> Gen/StoreLast.lean).
   Any number of threads, any schedule.  The `Memo` record (key, skey, compute, accept, cacheable, popOnReject) and the
   table operations are those of the C05 model.  Core Lean only (linked into the driver).
 -/
@@ -19,7 +23,8 @@ open PonyVerif.Model.Memo
 inductive Phase (V : Type)
   | idle                      -- before `cache.get`
   | needPop                   -- a rejected hit, before `cache.pop(key, None)`
-  | needStore (v : V)         -- computed, before `cache[skey] = v`
+  | needStore (v : V) (fill : Option V)   -- before `cache[skey] = v`; `fill = some w`: `v` is unfinished, `w` the finished value
+  | needFill (w : V)          -- published unfinished: before the in-place completion becomes visible
 
 structure Thread (I V : Type) where
   todo : List I
@@ -27,35 +32,57 @@ structure Thread (I V : Type) where
   /-- the values the calls of this thread returned -/
   results : List (I × V)
 
-inductive Ev | none | hit | miss | reject | popped (found : Bool) | stored
+inductive Ev | none | hit | miss | reject | popped (found : Bool) | stored | filled
   deriving DecidableEq, Repr
 
 def finish {I V : Type} (th : Thread I V) (i : I) (rest : List I) (v : V) : Thread I V :=
   ⟨rest, .idle, th.results ++ [(i, v)]⟩
 
 /-- after the miss / the pop: compute, then publish or return -/
-def afterMiss {I K V : Type} (m : Memo I K V) (th : Thread I V) (i : I) (rest : List I) : Thread I V :=
-  if m.cacheable i then { th with phase := .needStore (m.compute i) } else finish th i rest (m.compute i)
+def afterMiss {I K V : Type} (m : Memo I K V) (early : Bool) (part : I → V) (th : Thread I V) (i : I) (rest : List I) : Thread I V :=
+  if m.cacheable i then
+    (if early then { th with phase := .needStore (part i) (some (m.compute i)) }
+     else { th with phase := .needStore (m.compute i) none })
+  else finish th i rest (m.compute i)
 
 /-- one atomic step of one thread on the shared table -/
-def tstep {I K V : Type} [DecidableEq K] (m : Memo I K V) (t : Table K V) (th : Thread I V) : Table K V × Thread I V × Ev :=
+def tstepG {I K V : Type} [DecidableEq K] (m : Memo I K V) (early : Bool) (part : I → V) (t : Table K V) (th : Thread I V) :
+    Table K V × Thread I V × Ev :=
   match th.todo with
   | [] => (t, th, .none)
   | i :: rest =>
     match th.phase with
     | .idle =>
       match tget (m.key i) t with
-      | none => (t, afterMiss m th i rest, .miss)
+      | none => (t, afterMiss m early part th i rest, .miss)
       | some v =>
         if m.accept i v then (t, finish th i rest v, .hit)
         else if m.popOnReject i v then (t, { th with phase := .needPop }, .reject)
-        else (t, afterMiss m th i rest, .reject)
-    | .needPop => (tdel (m.key i) t, afterMiss m th i rest, .popped (tget (m.key i) t).isSome)
-    | .needStore v => (tset (m.skey i) v t, finish th i rest v, .stored)
+        else (t, afterMiss m early part th i rest, .reject)
+    | .needPop => (tdel (m.key i) t, afterMiss m early part th i rest, .popped (tget (m.key i) t).isSome)
+    | .needStore v none => (tset (m.skey i) v t, finish th i rest v, .stored)
+    | .needStore v (some w) => (tset (m.skey i) v t, { th with phase := .needFill w }, .stored)
+    | .needFill w => (tset (m.skey i) w t, finish th i rest w, .filled)
 
 structure State (I K V : Type) where
   table : Table K V
   th : Nat → Thread I V
+
+/-- the code with a miss branch that stores last -/
+def tstep {I K V : Type} [DecidableEq K] (m : Memo I K V) (t : Table K V) (th : Thread I V) : Table K V × Thread I V × Ev :=
+  tstepG m false m.compute t th
+
+def stepG {I K V : Type} [DecidableEq K] (m : Memo I K V) (early : Bool) (part : I → V) (s : State I K V) (t : Nat) :
+    State I K V × Ev :=
+  let r := tstepG m early part s.table (s.th t)
+  (⟨r.1, fun x => if x = t then r.2.1 else s.th x⟩, r.2.2)
+
+def runG {I K V : Type} [DecidableEq K] (m : Memo I K V) (early : Bool) (part : I → V) : State I K V → List Nat → State I K V × List Ev
+  | s, [] => (s, [])
+  | s, t :: sched =>
+    let r := stepG m early part s t
+    let r2 := runG m early part r.1 sched
+    (r2.1, r.2 :: r2.2)
 
 def step {I K V : Type} [DecidableEq K] (m : Memo I K V) (s : State I K V) (t : Nat) : State I K V × Ev :=
   let r := tstep m s.table (s.th t)
